@@ -19,6 +19,9 @@ struct ObjView {
     pkts: Vec<usize>,
     start: Option<usize>,
     stop: Option<usize>,
+    /// sent more than once (transfer count > 1 or carousel): between two transfers it waits in the queue again, so
+    /// it is left out of the clauses that reason on "first packet .. last packet"
+    repeating: bool,
 }
 
 fn judge(run: &ScriptRun, out: &mut Vec<Violation>) -> (u64, Vec<u64>) {
@@ -50,6 +53,7 @@ fn judge(run: &ScriptRun, out: &mut Vec<Violation>) -> (u64, Vec<u64>) {
             pkts: run.stream.iter().enumerate().filter(|(_, p)| p.toi() == toi).map(|(k, _)| k).collect(),
             start: tr.first().map(|t| t.0),
             stop: tr.first().and_then(|t| t.1),
+            repeating: o.max_transfer_count > 1 || o.carousel.is_some(),
         });
     }
     let mux = |q: u32| run.spec.queues.iter().find(|x| x.0 == q).map(|x| x.1.max(1)).unwrap_or(1) as usize;
@@ -59,11 +63,12 @@ fn judge(run: &ScriptRun, out: &mut Vec<Violation>) -> (u64, Vec<u64>) {
     for a in &objs {
         for &n in &a.pkts {
             for b in &objs {
-                if b.queue < a.queue && b.ready_from <= n && b.pkts.last().map(|l| *l > n).unwrap_or(false) && !p_reported {
-                    // b is ready (announced/added before n) and still has packets to send after n
+                if b.queue < a.queue && !b.repeating && b.ready_from <= n && b.pkts.last().map(|l| *l > n).unwrap_or(true) && !p_reported {
+                    // b is ready (announced/added before n) and still has packets to send after n - or is never sent at all
                     out.push(base(Violation::new("priority_inversion", format!(
-                        "packet {} belongs to TOI {} (queue {}) while TOI {} of the higher-priority queue {} was ready since index {} and still had packets to send (its next packet is at index {})",
-                        n, a.toi, a.queue, b.toi, b.queue, b.ready_from, b.pkts.iter().find(|k| **k > n).unwrap())))
+                        "packet {} belongs to TOI {} (queue {}) while TOI {} of the higher-priority queue {} was ready since index {} and still had packets to send ({})",
+                        n, a.toi, a.queue, b.toi, b.queue, b.ready_from, match b.pkts.iter().find(|k| **k > n) { Some(k) => format!("its next packet is at index {}", k), None => "it is never transmitted".to_string() })))
+                        .with("high_never_sent", b.pkts.is_empty())
                         .witness(wit(json!({"low": a.i, "high": b.i}))));
                     p_reported = true;
                 }
@@ -72,10 +77,18 @@ fn judge(run: &ScriptRun, out: &mut Vec<Violation>) -> (u64, Vec<u64>) {
     }
     // (F) FIFO admission inside a queue: first packets in add order (add order = object index order per queue here)
     let mut by_q: BTreeMap<u32, Vec<&ObjView>> = BTreeMap::new();
-    for o in &objs {
+    for o in objs.iter().filter(|o| !o.repeating) {
         by_q.entry(o.queue).or_default().push(o);
     }
     for (q, list) in &by_q {
+        // an object that was made ready and never starts although one made ready after it, in the same queue, does
+        for a in list.iter().filter(|o| o.pkts.is_empty() && o.ready_from != usize::MAX) {
+            if let Some(b) = list.iter().find(|b| !b.pkts.is_empty() && (b.ready_from, b.add_pos) > (a.ready_from, a.add_pos)) {
+                out.push(base(Violation::new("admission_skipped", format!("queue {}: TOI {} (ready since index {}) is never transmitted while TOI {}, made ready after it (index {}), is", q, a.toi, a.ready_from, b.toi, b.ready_from)))
+                    .witness(wit(json!({"queue": q, "skipped": a.i, "served": b.i}))));
+                break;
+            }
+        }
         // "start" = admission = the public StartTransfer event. The order of the FIRST PACKETS may differ by a
         // round-robin step when two objects are admitted in the same scheduling round (both wait behind the
         // FDT instance their admission published): that is the alternation clause's business, not this one's.
@@ -132,7 +145,7 @@ fn judge(run: &ScriptRun, out: &mut Vec<Violation>) -> (u64, Vec<u64>) {
     }
     // (I) block interleaving
     let il = run.spec.interleave as usize;
-    for o in &objs {
+    for o in objs.iter().filter(|o| !o.repeating) {
         let mut first: BTreeMap<u32, usize> = BTreeMap::new();
         let mut last: BTreeMap<u32, usize> = BTreeMap::new();
         for &k in &o.pkts {
@@ -167,9 +180,15 @@ fn judge(run: &ScriptRun, out: &mut Vec<Violation>) -> (u64, Vec<u64>) {
 }
 
 fn run_case(spec: &SenderSpec, objs: &[ObjSpec], script: &[(When, Op)], shape: &str, cr: &mut CaseResult) {
+    run_case_horizon(spec, objs, script, shape, 400, cr)
+}
+
+fn run_case_horizon(spec: &SenderSpec, objs: &[ObjSpec], script: &[(When, Op)], shape: &str, instants: usize, cr: &mut CaseResult) {
     let witness = json!({"sender": spec.json(), "objects": objs.iter().map(|o| json!({"len": o.data.len(), "prio": o.priority})).collect::<Vec<_>>(), "script": format!("{:?}", script)});
-    let mut opts = ScriptOpts::every(100, 400);
+    let mut opts = ScriptOpts::every(100, instants);
     opts.max_packets = 20_000;
+    // workloads with carousel objects never run empty
+    opts.stop_when_empty = !objs.iter().any(|o| o.carousel.is_some());
     match util::guarded(|| run_script(spec, objs, script, &opts)) {
         Ok(Ok(run)) => {
             if run.ops.iter().any(|o| o.op == Op::Publish && !o.ok) {
@@ -337,6 +356,60 @@ fn main() {
             });
             let mut cr = CaseResult::default();
             run_case(&spec, &objs, &script, &format!("r|{}|{}|{}|{}", nq, nobj.min(8), spec.interleave, spec.full_fdt), &mut cr);
+            cr
+        }));
+        // ---- objects that are sent several times (transfer count 2-3, carousel) wait in the queue again between two
+        // transfers, possibly BEHIND objects that were added but are not announced yet; single-transfer objects are
+        // added and published at different moments around them. The single-transfer objects are judged as before
+        // (priority - also when the ready object is never sent at all -, admission, multiplex, round-robin).
+        let n2 = ctx.tier.pick(6000usize, 400_000);
+        gens.push(Gen::new("requeue_then_publish", n2, move |ctx, i| {
+            let mut rng = Rng::keyed(ctx.seed, "C13q", 0, i as u64);
+            let mut spec = SenderSpec::new(OtiSpec::new(Fec::NoCode, 4096, 8, 0));
+            spec.full_fdt = rng.chance(3, 4);
+            spec.interleave = rng.range(1, 3) as u8;
+            let nq = rng.range(1, 3) as usize;
+            spec.queues = (0..nq).map(|q| (q as u32, rng.below(3) as u32)).collect();
+            spec.fdt_carousel = CarouselSpec::DelayMs(3_600_000);
+            let mut objs = vec![];
+            let mut script: Vec<(When, Op)> = vec![];
+            // repeating objects first, published at once
+            let nrep = rng.range(1, 3) as usize;
+            for k in 0..nrep {
+                let len = rng.range(1, 40) as usize;
+                let mut o = ObjSpec::new(gen_bytes(&mut rng, len), &format!("file:///q/rep{}", k));
+                o.oti = Some(OtiSpec::new(Fec::NoCode, 8, 2, 0));
+                o.priority = rng.pick(&spec.queues).0;
+                if rng.chance(1, 2) {
+                    o.max_transfer_count = rng.range(2, 4) as u32;
+                } else {
+                    o.carousel = Some(CarouselSpec::DelayMs(*rng.pick(&[100u64, 300, 1000])));
+                    o.max_transfer_count = rng.range(1, 2) as u32;
+                }
+                script.push((When::Start, Op::Add(k)));
+                objs.push(o);
+            }
+            script.push((When::Start, Op::Publish));
+            // single-transfer objects: added at some packet index, published some packets later (several adds may share a publish)
+            let nsingle = rng.range(1, 5) as usize;
+            let mut pk = rng.range(0, 6) as usize;
+            let mut t_ms = 0u64;
+            let by_time = rng.chance(1, 3);
+            for k in 0..nsingle {
+                let len = rng.range(1, 60) as usize;
+                let mut o = ObjSpec::new(gen_bytes(&mut rng, len), &format!("file:///q/s{}", k));
+                o.oti = Some(OtiSpec::new(Fec::NoCode, 8, 2, 0));
+                o.priority = rng.pick(&spec.queues).0;
+                objs.push(o);
+                let w = if by_time { t_ms += *rng.pick(&[0u64, 100, 200, 500]); When::TimeMs(t_ms) } else { pk += rng.range(0, 8) as usize; When::Packets(pk) };
+                script.push((w, Op::Add(nrep + k)));
+                if rng.chance(1, 2) || k + 1 == nsingle {
+                    let w = if by_time { t_ms += *rng.pick(&[0u64, 100, 200, 500]); When::TimeMs(t_ms) } else { pk += rng.range(0, 8) as usize; When::Packets(pk) };
+                    script.push((w, Op::Publish));
+                }
+            }
+            let mut cr = CaseResult::default();
+            run_case_horizon(&spec, &objs, &script, &format!("q|{}|{}|{}|{}|{}", nq, nrep, nsingle, spec.full_fdt, by_time), 120, &mut cr);
             cr
         }));
         gens
